@@ -183,6 +183,10 @@ def run(ctx, deep=False):
             ctx.sample({"lru_cfg": cfg, "lru_ops": ops, "trace": trace})
     if ctx.driver_ok():
         ctx.correspond("corr/c54:LRUCache-vs-Model.Lru", cases, impl_out, ctx.driver(reqs))
+    # ------------------------------------------------------------ small helpers (oracle only)
+    for key, case, detail in L.misc_helper_checks(ctx.rng, 1500 if thorough else 300):
+        ctx.violation(key, case, detail)
+    ctx.count("misc.helper-rounds", 1500 if thorough else 300)
     ctx.exhaustive = thorough
 
 
@@ -216,6 +220,11 @@ def replay(ctx, obj):
     elif kind == "idset-foreign":
         fails = L.is_foreign_checks(ns)
         trace, req, fail = [], [], (fails[0] if fails else None)
+    elif kind == "misc":
+        import random
+
+        fails = [f for f in L.misc_helper_checks(random.Random(0), 300) if f[1]["name"] == c["name"]]
+        trace, req, fail = [], [], ((fails[0][0], fails[0][2]) if fails else None)
     elif kind == "unique_list":
         got = ns.unique_list(list(c["seq"]))
         trace, req, fail = [repr(got)], [], (None if got == L.ref_first_occ(c["seq"]) else ("unique-list-first-occurrence", repr(got)))
